@@ -658,7 +658,9 @@ class Fn:
             else:
                 out.add(("yield",))
         # writes through &mut borrows handed to calls
-        for node, c in self._mut_borrow_calls(local):
+        for node, c, bproj in self._mut_borrow_calls(local):
+            if not (proj.startswith(bproj) or bproj.startswith(proj)):
+                continue
             nm = c.name or "?"
             out.add(("mutcall", nm))
             if opaque and re.search(opaque, nm):
@@ -713,22 +715,25 @@ class Fn:
             out.add(("unknown",))
 
     def _mut_borrow_calls(self, local):
-        """calls that receive a `&mut local...` (directly or through one reborrow temp)"""
+        """calls that receive a `&mut local<proj>` (directly or through reborrow temps)
+        -> [(node, call, projstr of the borrowed place)]"""
         if not hasattr(self, "_mbc"):
-            refs = {}   # temp -> base local of a mutable borrow
+            refs = {}   # temp -> place of a mutable borrow
             for node, s in self.assigns(live_only=False):
                 rv = s["rv"]
                 if rv["r"] == "ref" and rv.get("mut") and len(s["lhs"]) == 1:
-                    base = rv["p"]
-                    refs[s["lhs"][0]] = base
-            # resolve reborrows `&mut *tmp`
+                    refs[s["lhs"][0]] = rv["p"]
+
             def base_of(t, d=0):
                 b = refs.get(t)
                 if b is None or d > 5:
                     return None
                 if len(b) >= 2 and b[1] == "*" and b[0] in refs:
-                    return base_of(b[0], d + 1)
-                return b[0]
+                    inner = base_of(b[0], d + 1)
+                    if inner is None:
+                        return None
+                    return inner + list(b[2:])
+                return list(b)
             m = {}
             for c in self.calls(live_only=False):
                 for a in c.args:
@@ -736,7 +741,7 @@ class Fn:
                     if pa is not None and len(pa) == 1 and pa[0] in refs:
                         b = base_of(pa[0])
                         if b is not None:
-                            m.setdefault(b, []).append((c.node, c))
+                            m.setdefault(b[0], []).append((c.node, c, "".join(b[1:])))
             self._mbc = m
             self._refs = refs
         return self._mbc.get(local, [])
